@@ -10,6 +10,7 @@ import CelloGen.Cfg
 import CelloProofs.Lemmas.Cfg
 import CelloProofs.Lemmas.CfgFull
 import CelloProofs.Lemmas.CfgKeep
+import CelloProofs.Lemmas.CfgGuard
 
 namespace Cello.Config
 open CelloGen.Cfg
@@ -96,6 +97,75 @@ theorem C18_payload_independent_of_header (cfg : Cfg) (ty : String) (c : AllocCl
     rw [List.getElem?_append_left hpos]
     exact hhead
   · simp [allocBlock, hlen]
+
+/-! ### the guards over the allocation class: false on every in-contract object, so removable
+
+  Every `if (cond) throw(…)` inside `#if CELLO_ALLOC_CHECK == 1` is regenerated from src/*.c as a term (`CelloGen.Cfg.guards`:
+  `alloc is X`, `alloc isnt X`, `or`, …), the classes that `alloc_by`, the containers, `$(…)` and the static object literal
+  write into headers as `CelloGen.Cfg.stamps`.  The model evaluates exactly these terms (Cello/Config.lean `sitesFire`). -/
+
+/-- the four allocation classes of the model are the enumerators of Cello.h, with pairwise distinct values (so `alloc is X`
+    tells the classes apart) -/
+theorem C18_alloc_enum_distinct :
+    (∀ c ∈ AllocClass.all, (enumVal c.cname).isSome = true) ∧ (AllocClass.all.map (fun c => enumVal c.cname)).Nodup ∧
+    allocEnum.length = AllocClass.all.length := by
+  decide +kernel
+
+/-- objects on the caller's stack (`$(…)`) and static objects carry classes that no heap object and no element embedded in a
+    container carries: the classes on which an in-place operation is defined are told apart from those on which it is not -/
+theorem C18_alloc_classes_separate :
+    stampOf "alloc_stack" ∉ reallocClasses ∧ stampOf "CelloObject" ∉ reallocClasses ∧
+    (∀ c ∈ reallocClasses, c ≠ heapClass → c ∉ deallocClasses) ∧ heapClass ∈ reallocClasses ∧ deallocClasses = [heapClass] := by
+  decide +kernel
+
+/-- **Every CELLO_ALLOC_CHECK guard is false on every in-contract object** — for each guard of the current source, and each
+    class an object can carry for which the guarded function is defined (String_* / Tuple_* reallocating or freeing the
+    buffer: what `alloc_by` made AND what Array, List, Table (key, value), Tree (key, value) embed; `dealloc`: what `alloc_by`
+    made).  This is what makes the check removable: compiling it out changes nothing an in-contract program can see.
+    A guard rewritten to `alloc isnt AllocHeap` is true on embedded elements and makes this `decide` fail. -/
+theorem C18_alloc_guards_false_in_contract :
+    ∀ g ∈ guards, g.guardMacro = "CELLO_ALLOC_CHECK" → ∀ c ∈ inContractClasses g.func, evalG false c g.cond = false := by
+  decide +kernel
+
+/-- **… and together the guards of a function fire exactly where it is undefined without them**: over all four classes, some
+    `CELLO_ALLOC_CHECK` guard of the function fires iff the class is not one the function is defined on; every such guard
+    speaks about the header only and throws an exception the model knows.  This is what entitles the model to treat
+    "a guard that would fire is compiled out" as undefined behaviour (`refuse`). -/
+theorem C18_alloc_guards_classify :
+    ∀ g ∈ guards, g.guardMacro = "CELLO_ALLOC_CHECK" →
+      GExpr.headerOnly g.cond = true ∧ (Exc.ofName g.exc).isSome = true ∧
+      ∀ c ∈ AllocClass.all, (allocGuardFires g.func c).isSome = !((inContractClasses g.func).contains c) := by
+  decide +kernel
+
+/-- in the model: no generated guard fires on an in-contract class, for any function (also one without guards) -/
+theorem C18_alloc_guard_never_fires_in_contract (fn : String) (c : AllocClass) (hc : c ∈ inContractClasses fn) :
+    allocGuardFires fn c = none := by
+  unfold allocGuardFires
+  rw [Option.map_eq_none_iff, List.find?_eq_none]
+  intro g hg
+  unfold allocGuardsOf at hg
+  obtain ⟨hmem, hcond⟩ := List.mem_filter.mp hg
+  have h1 : g.func = fn ∧ g.guardMacro = "CELLO_ALLOC_CHECK" := by simpa using hcond
+  have := C18_alloc_guards_false_in_contract g hmem h1.2 c (h1.1 ▸ hc)
+  simp [this]
+
+/-- **An in-place edit is never refused for where its target lives.**  Whatever the edit (concat, append, resize, assign,
+    print_to, rem, look_from) and whatever it is applied to — the object behind the handle (made by new / new_raw / new_root /
+    copy: header written by `alloc_by` of that build), an element of an Array or List reached by `get` or by iteration, a value
+    or a key of a Table or Tree — none of the allocation-class guards of the functions it runs fires, in any build. -/
+theorem C18_edit_never_refused_for_its_class (cfg : Cfg) (o : Obj) (ho : o.hdr = headerInit cfg o.hdr.type heapClass)
+    (sel : Sel) (e : Edit) (b : Body) (x : Val) :
+    sitesFire o ((e.fns x.ty.name).map (fun f => (f, selWhere sel b))) = none :=
+  edit_sites_quiet (fun fn c hc => C18_alloc_guard_never_fires_in_contract fn c hc) cfg o ho sel e b x
+
+/-- the seeded shape, for contrast: `alloc isnt AllocHeap` fires on an embedded element, the guard of the source does not;
+    both fire on stack and static objects and neither on heap objects -/
+example :
+    evalG false .data (.allocIsnt "AllocHeap") = true ∧
+    evalG false .data (.or (.allocIs "AllocStack") (.allocIs "AllocStatic")) = false ∧
+    AllocClass.all.map (fun c => evalG false c (.allocIsnt "AllocHeap")) = [true, true, false, true] ∧
+    AllocClass.all.map (fun c => evalG false c (.or (.allocIs "AllocStack") (.allocIs "AllocStatic"))) = [true, true, false, false] := by
+  decide +kernel
 
 /-! ### the configuration-independence theorem -/
 
@@ -268,6 +338,37 @@ example : InContract (run Cfg.default sampleProg St.init).2 ∧
     (run Cfg.default sampleProg St.init).2.getD 5 .ub = .ok (.val (.int 9)) ∧
     (run Cfg.default sampleProg St.init).2.getD 9 .ub = .ok (.val (.str "cinco")) ∧
     (run ⟨false, false, false⟩ sampleProg St.init).2 = (run Cfg.default sampleProg St.init).2 := by
+  decide +kernel
+
+/-- in-place edits of objects of every allocation class on which they are defined: heap objects made by new / new_raw /
+    new_root, elements of an Array and a List (by index and by iteration), values and keys of a Table and a Tree -/
+def sampleEdits : List Op :=
+  [.nv 0 (.str "ab"), .nvm .raw 1 (.str "cd"), .nvm .root 2 (.str "ef"),
+   .ed 0 .self (.cat "X"), .ed 1 .self (.res 1), .ed 2 .self (.fmt 1 "zz"), .ed 0 .self (.rem "b"), .ed 1 .self (.look "new"),
+   .nseq .array 3 .S [.str "alpha", .str "beta"], .nseq .list 4 .S [.str "one", .str "two"],
+   .ed 3 (.at 1) (.cat "_s"), .ed 3 (.it 0) (.res 3), .ed 4 (.at (-1)) (.app "Q"), .ed 4 (.it 0) (.asg (.str "uno")),
+   .nmap .table 5 .S .S, .mset 5 (.str "k") (.str "Hello"), .ed 5 (.val (.str "k")) (.cat "World"), .ed 5 (.key (.str "k")) (.cat ""),
+   .nmap .tree 6 .I .S, .mset 6 (.int 7) (.str "seven"), .ed 6 (.val (.int 7)) (.fmt 5 "th"), .ed 6 (.key (.int 7)) (.asg (.int 7)),
+   .get 3 1, .get 3 0, .get 4 1, .get 4 0, .mget 5 (.str "k"), .mget 6 (.int 7), .items 5,
+   .del 1, .del 2, .pop 3, .del 3, .del 5]
+
+/-- the edits are in contract in the default build, compute what the C functions compute, and every build agrees -/
+example : InContract (run Cfg.default sampleEdits St.init).2 ∧
+    ((run Cfg.default sampleEdits St.init).2.drop 22).take 7 =
+      [.ok (.val (.str "beta_s")), .ok (.val (.str "alp")), .ok (.val (.str "twoQ")), .ok (.val (.str "uno")),
+       .ok (.val (.str "HelloWorld")), .ok (.val (.str "seventh")), .ok (.kvs [(.str "k", .str "HelloWorld")])] ∧
+    Cfg.all.all (fun c => (run c sampleEdits St.init).2 == (run Cfg.default sampleEdits St.init).2) = true := by
+  decide +kernel
+
+/-- an in-place edit that IS out of contract: rewriting a key of a Table with another value is undefined in every build
+    (nothing tests it), appending to an element beyond the workload's buffers likewise; `rem` of an absent text raises in
+    every build -/
+example :
+    let s := (run Cfg.default [.nmap .table 0 .S .S, .mset 0 (.str "k") (.str "v")] St.init).1
+    (step Cfg.default (.ed 0 (.key (.str "k")) (.cat "x")) s).2 = .ub ∧
+    (step Cfg.default (.ed 0 (.val (.str "k")) (.rem "zz")) s).2 = .raised .ValueError ∧
+    (step ⟨false, true, true⟩ (.ed 0 (.val (.str "k")) (.rem "zz")) s).2 = .raised .ValueError ∧
+    (step Cfg.default (.ed 0 (.val (.str "q")) (.cat "x")) s).2 = .raised .KeyError := by
   decide +kernel
 
 /-- **Out of contract the builds do differ** (so the hypothesis of C18 is necessary, and the model does not make the
